@@ -3,7 +3,9 @@
 d=$(mktemp -d /verif/out/apamut.XXXX)
 sed "s/trie' = PutAll(trie, AllU(nr), nr.p)/trie' = PutAll(trie, {nr.u}, nr.p)/; s/MODULE Ind_C05 /MODULE Ind_C05_mut /" /verif/spec/apalache/Ind_C05.tla > $d/Ind_C05_mut.tla
 sed 's/us |-> (r.us \\union {r.u}) \\ {new}\]/us |-> r.us \\ {new}]/; s/MODULE Ind_C12 /MODULE Ind_C12_mut /' /verif/spec/apalache/Ind_C12.tla > $d/Ind_C12_mut.tla
+sed 's/{\[p |-> r.p, u |-> r.u, ps |-> r.ps \\union (AllP(ext) \\ AllP(r))/{[p |-> ext.p, u |-> r.u, ps |-> (r.ps \\union AllP(ext) \\union {r.p}) \\ {ext.p}/; s/MODULE Ind_C09 /MODULE Ind_C09_mut /' /verif/spec/apalache/Ind_C09.tla > $d/Ind_C09_mut.tla
 cd $d
 echo "Ind_C05 with a trie update that forgets URI synonyms: $(timeout 900 apalache-mc check --init=IndInit --inv=IndInv --length=1 --out-dir=$d/o Ind_C05_mut.tla 2>&1 | grep -m1 -o 'The outcome is: [A-Za-z]*')"
 echo "Ind_C12 with a re-pointing that forgets the old canonical URI prefix: $(timeout 900 apalache-mc check --init=Init --inv=Inv --length=1 --out-dir=$d/o Ind_C12_mut.tla 2>&1 | grep -m1 -o 'The outcome is: [A-Za-z]*')"
+echo "Ind_C09 with a merge in which the LATER record's prefix becomes canonical: $(timeout 900 apalache-mc check --init=IndInit --inv=IndInv --length=1 --out-dir=$d/o Ind_C09_mut.tla 2>&1 | grep -m1 -o 'The outcome is: [A-Za-z]*')"
 cd /verif; rm -rf $d
